@@ -798,4 +798,211 @@ theorem balance_genome_mask_iff (n : Nat) (offs : List Nat) (ps : Pixels) (o : O
       rw [List.drop_zero, Nat.sub_zero, List.take_of_length_le (by rw [hlenm])]
     rw [this]
 
+/-! ## the model's sweep and the analytic theorems are about the same thing
+
+`model_marg_eq_dense` identifies the model's list-based marginal with the dense `marg` of
+`Props/C10IC.lean`; `applyUpdate_eq_upd` identifies the updates; `model_final_step_bound` and
+`model_converged_bound` are `final_step_bound` / `converged_rowsums_bound` restated on the executable
+definitions (`margVec`, `IC.mean`, `IC.variance`, `applyUpdate`, `rowsumAt`).  Stated for the
+genome-wide functional on data with an empty main diagonal (`ignore_diags ≥ 1`); per chromosome the
+same follows with `cis_bound`. -/
+
+section dense
+variable {K : Type} [CommSemiring K]
+
+theorem symmAt_timesOuter (w : Nat → K) (l : List (WPx K)) (a b : Nat) :
+    symmAt (timesOuter w l) a b = w a * symmAt l a b * w b := by
+  induction l with
+  | nil => simp [symmAt, timesOuter]
+  | cons p l ih =>
+    have : timesOuter w (p :: l) = { p with w := w p.i * w p.j * p.w } :: timesOuter w l := rfl
+    rw [this, symmAt_cons, symmAt_cons, ih, mul_add, add_mul]
+    congr 1
+    unfold contrib
+    by_cases h : (p.i = a ∧ p.j = b) ∨ (p.i = b ∧ p.j = a)
+    · simp only [h, if_true]
+      rcases h with ⟨h1, h2⟩ | ⟨h1, h2⟩
+      · rw [h1, h2]; ring
+      · rw [h1, h2]; ring
+    · simp only [h, if_false]; ring
+
+theorem list_range_sum_eq_fin (n : Nat) (f : Nat → K) :
+    ((List.range n).map f).sum = ∑ j : Fin n, f j := by
+  rw [← Finset.sum_range]
+  induction n with
+  | zero => simp
+  | succ n ih => rw [List.range_succ, List.map_append, List.sum_append, ih, Finset.sum_range_succ]; simp
+
+end dense
+
+/-- **The model's marginal is the dense marginal of the analytic theorems.**  For pixel data with bin
+ids below `n` and an empty main diagonal, `_marginalize` of the data times the outer product of `w`
+is `Σ_j w_k · S_kj · w_j` with `S = symmAt l` the symmetric matrix the pixels stand for — i.e.
+`Cooler.C10.marg S w k` over `Fin n`, the functional `final_step_bound` and
+`converged_rowsums_bound` are about. -/
+theorem model_marg_eq_dense {K : Type} [Field K] (n : Nat) (l : List (WPx K)) (hl : ∀ p ∈ l, p.i < n ∧ p.j < n)
+    (hd : ∀ p ∈ l, p.i = p.j → p.w = 0) (w : Nat → K) (k : Fin n) :
+    marginalizeAt (timesOuter w l) k
+      = marg (fun i j : Fin n => symmAt l i j) (fun i : Fin n => w i) k := by
+  have hl' : ∀ p ∈ timesOuter w l, p.i < n ∧ p.j < n := by
+    intro p hp
+    obtain ⟨q, hq, rfl⟩ := List.mem_map.mp hp
+    exact hl q hq
+  have hd' : ∀ p ∈ timesOuter w l, p.i = p.j → p.w = 0 := by
+    intro p hp hij
+    obtain ⟨q, hq, rfl⟩ := List.mem_map.mp hp
+    have : q.w = 0 := hd q hq hij
+    simp [this]
+  rw [marginalize_eq_rowsum n _ hl' hd' k]
+  unfold rowsumAt marg
+  rw [list_range_sum_eq_fin]
+  apply Finset.sum_congr rfl
+  intro j _
+  exact symmAt_timesOuter w l k j
+
+/-- the symmetric matrix of the pixels is symmetric, and non-negative for non-negative data -/
+theorem symmAt_symm {K : Type} [AddCommMonoid K] (l : List (WPx K)) (a b : Nat) : symmAt l a b = symmAt l b a := by
+  unfold symmAt
+  congr 1
+  apply List.map_congr_left
+  intro p _
+  have : ((p.i = a ∧ p.j = b) ∨ (p.i = b ∧ p.j = a)) ↔ ((p.i = b ∧ p.j = a) ∨ (p.i = a ∧ p.j = b)) := Or.comm
+  simp only [this]
+
+theorem symmAt_nonneg (l : List (WPx Rat)) (hl : ∀ p ∈ l, 0 ≤ p.w) (a b : Nat) : 0 ≤ symmAt l a b := by
+  unfold symmAt
+  apply List.sum_nonneg
+  intro x hx
+  obtain ⟨p, hp, rfl⟩ := List.mem_map.mp hx
+  split
+  · exact hl p hp
+  · exact le_refl 0
+
+
+
+/-- list version of `variance_gives_delta`, on the model's `IC.mean` / `IC.variance` -/
+theorem list_variance_gives_delta (l : List Rat) (tol δ : Rat) (hne : l ≠ [])
+    (hvar : IC.variance l < tol) (hδ0 : 0 ≤ δ) (hμ : 0 ≤ IC.mean l)
+    (hδ : tol * (l.length : Rat) ≤ δ ^ 2 * (IC.mean l) ^ 2) :
+    ∀ x ∈ l, |x - IC.mean l| ≤ δ * IC.mean l := by
+  intro x hx
+  have hlen : (0 : Rat) < (l.length : Rat) := by
+    have : 0 < l.length := List.length_pos_iff.mpr hne
+    exact_mod_cast this
+  have hsum : (l.map fun y => (y - IC.mean l) * (y - IC.mean l)).sum < tol * (l.length : Rat) := by
+    unfold IC.variance at hvar
+    simp only at hvar
+    rwa [div_lt_iff₀ hlen] at hvar
+  have h1 : (x - IC.mean l) * (x - IC.mean l) ≤ (l.map fun y => (y - IC.mean l) * (y - IC.mean l)).sum := by
+    apply List.single_le_sum
+    · intro y hy
+      obtain ⟨z, _, rfl⟩ := List.mem_map.mp hy
+      exact mul_self_nonneg _
+    · exact List.mem_map.mpr ⟨x, hx, rfl⟩
+  have h2 : (x - IC.mean l) ^ 2 ≤ (δ * IC.mean l) ^ 2 := by
+    rw [pow_two, mul_pow]
+    exact le_trans h1 (le_of_lt (lt_of_lt_of_le hsum hδ))
+  exact abs_le_of_sq_le_sq h2 (mul_nonneg hδ0 hμ)
+
+theorem getD_margVec (n : Nat) (l : List (WPx Rat)) (b : List Rat) (k : Nat) (hk : k < n) :
+    (margVec n l b).getD k 0 = marginalizeAt (timesOuter (fun i => b.getD i 0) l) k := by
+  unfold margVec
+  rw [List.getD_eq_getElem?_getD, List.getElem?_map, List.getElem?_range hk]
+  rfl
+
+/-- the model's update is the update `upd` of the analytic theorems -/
+theorem applyUpdate_eq_upd (n : Nat) (l : List (WPx Rat)) (hl : ∀ p ∈ l, p.i < n ∧ p.j < n)
+    (hd : ∀ p ∈ l, p.i = p.j → p.w = 0) (b : List Rat) (hbl : b.length = n) (μ : Rat) (k : Fin n) :
+    (applyUpdate b 0 (margVec n l b) μ).getD k 0
+      = upd (fun i j : Fin n => symmAt l i j) (fun i : Fin n => b.getD i 0) μ k := by
+  have hlen : (margVec n l b).length = n := by unfold margVec; simp
+  unfold applyUpdate upd
+  rw [List.getD_eq_getElem?_getD, List.getElem?_mapIdx, List.getElem?_eq_getElem (by rw [hbl]; exact k.2)]
+  simp only [Option.map_some, Option.getD_some, Nat.zero_le, true_and, Nat.zero_add, hlen, k.2, if_true,
+    Nat.sub_zero]
+  rw [getD_margVec n l b k k.2, model_marg_eq_dense n l hl hd (fun i => b.getD i 0) k]
+  unfold divisor
+  rw [List.getD_eq_getElem?_getD, List.getElem?_eq_getElem (by rw [hbl]; exact k.2)]
+  simp
+
+/-- **Final-step bound on the executable model** (empty main diagonal): if every non-zero entry of
+the model's marginal vector is within `δμ` of `μ`, then after the model's update the row sums of the
+symmetric matrix under the new weights lie in `[μ/(1+δ), μ/(1−δ)]`. -/
+theorem model_final_step_bound (n : Nat) (l : List (WPx Rat)) (hl : ∀ p ∈ l, p.i < n ∧ p.j < n)
+    (hd : ∀ p ∈ l, p.i = p.j → p.w = 0) (hnn : ∀ p ∈ l, 0 ≤ p.w)
+    (b : List Rat) (hbl : b.length = n) (hb : ∀ i, 0 ≤ b.getD i 0)
+    (μ δ : Rat) (hμ : 0 < μ) (hδ0 : 0 ≤ δ) (hδ1 : δ < 1)
+    (hclose : ∀ k, k < n → (margVec n l b).getD k 0 ≠ 0 → |(margVec n l b).getD k 0 - μ| ≤ δ * μ)
+    (k : Nat) (hk : k < n) (hk0 : (margVec n l b).getD k 0 ≠ 0) :
+    μ / (1 + δ) ≤ rowsumAt n (timesOuter (fun i => (applyUpdate b 0 (margVec n l b) μ).getD i 0) l) k ∧
+    rowsumAt n (timesOuter (fun i => (applyUpdate b 0 (margVec n l b) μ).getD i 0) l) k ≤ μ / (1 - δ) := by
+  set A : Fin n → Fin n → Rat := fun i j => symmAt l i j with hA
+  set bF : Fin n → Rat := fun i => b.getD i 0 with hbF
+  have hm : ∀ j : Fin n, (margVec n l b).getD j 0 = marg A bF j := fun j => by
+    rw [getD_margVec n l b j j.2]; exact model_marg_eq_dense n l hl hd (fun i => b.getD i 0) j
+  have hclose' : ∀ i : Fin n, marg A bF i ≠ 0 → |marg A bF i - μ| ≤ δ * μ := by
+    intro i hi
+    rw [← hm i] at hi ⊢
+    exact hclose i i.2 hi
+  have hk0' : marg A bF ⟨k, hk⟩ ≠ 0 := by rw [← hm ⟨k, hk⟩]; exact hk0
+  have main := final_step_bound A (fun i j => symmAt_nonneg l hnn i j) (fun i j => symmAt_symm l i j) bF
+    (fun i => hb i) μ δ hμ hδ0 hδ1 hclose' ⟨k, hk⟩ hk0'
+  -- the row sums under the new weights are the dense marginal under `upd`
+  have hl' : ∀ p ∈ timesOuter (fun i => (applyUpdate b 0 (margVec n l b) μ).getD i 0) l, p.i < n ∧ p.j < n := by
+    intro p hp
+    obtain ⟨q, hq, rfl⟩ := List.mem_map.mp hp
+    exact hl q hq
+  have hd' : ∀ p ∈ timesOuter (fun i => (applyUpdate b 0 (margVec n l b) μ).getD i 0) l, p.i = p.j → p.w = 0 := by
+    intro p hp hij
+    obtain ⟨q, hq, rfl⟩ := List.mem_map.mp hp
+    have : q.w = 0 := hd q hq hij
+    simp [this]
+  have hrow : rowsumAt n (timesOuter (fun i => (applyUpdate b 0 (margVec n l b) μ).getD i 0) l) k
+      = marg A (upd A bF μ) ⟨k, hk⟩ := by
+    rw [← marginalize_eq_rowsum n _ hl' hd' k]
+    have := model_marg_eq_dense n l hl hd (fun i => (applyUpdate b 0 (margVec n l b) μ).getD i 0) ⟨k, hk⟩
+    simp only at this
+    rw [this]
+    congr 1
+    funext i
+    exact applyUpdate_eq_upd n l hl hd b hbl μ i
+  rw [hrow]
+  exact main
+
+/-- **A sweep of the model that reports `var < tol` leaves flat row sums** (genome-wide functional,
+empty main diagonal): with `m` the model's marginal vector for weights `b`, `μ = mean` and
+`var = variance` of its non-zero entries (`N` of them), `var < tol`, and any `0 ≤ δ < 1` with
+`tol·N ≤ δ²μ²`, the row sums of the filtered symmetric matrix under the weights the model returns
+(before the division by `√scale`) lie in `[μ/(1+δ), μ/(1−δ)]` for every bin with a non-zero marginal. -/
+theorem model_converged_bound (n : Nat) (l : List (WPx Rat)) (hl : ∀ p ∈ l, p.i < n ∧ p.j < n)
+    (hd : ∀ p ∈ l, p.i = p.j → p.w = 0) (hnn : ∀ p ∈ l, 0 ≤ p.w)
+    (b : List Rat) (hbl : b.length = n) (hb : ∀ i, 0 ≤ b.getD i 0) (tol δ : Rat)
+    (hne : (margVec n l b).filter (fun x => decide (x ≠ 0)) ≠ [])
+    (hvar : IC.variance ((margVec n l b).filter (fun x => decide (x ≠ 0))) < tol)
+    (hδ0 : 0 ≤ δ) (hδ1 : δ < 1)
+    (hδ : tol * (((margVec n l b).filter (fun x => decide (x ≠ 0))).length : Rat)
+      ≤ δ ^ 2 * (IC.mean ((margVec n l b).filter (fun x => decide (x ≠ 0)))) ^ 2)
+    (k : Nat) (hk : k < n) (hk0 : (margVec n l b).getD k 0 ≠ 0) :
+    let μ := IC.mean ((margVec n l b).filter (fun x => decide (x ≠ 0)))
+    μ / (1 + δ) ≤ rowsumAt n (timesOuter (fun i => (applyUpdate b 0 (margVec n l b) μ).getD i 0) l) k ∧
+    rowsumAt n (timesOuter (fun i => (applyUpdate b 0 (margVec n l b) μ).getD i 0) l) k ≤ μ / (1 - δ) := by
+  intro μ
+  have hmnn : ∀ x ∈ margVec n l b, 0 ≤ x := margVec_nonneg n l hnn b hb
+  have hpos : ∀ x ∈ (margVec n l b).filter (fun x => decide (x ≠ 0)), 0 < x := by
+    intro x hx
+    have h1 := List.mem_filter.mp hx
+    have h2 : x ≠ 0 := by simpa using h1.2
+    exact lt_of_le_of_ne (hmnn x h1.1) (Ne.symm h2)
+  have hμ : 0 < μ := mean_pos _ hne hpos
+  have hclose : ∀ j, j < n → (margVec n l b).getD j 0 ≠ 0 → |(margVec n l b).getD j 0 - μ| ≤ δ * μ := by
+    intro j hj hj0
+    apply list_variance_gives_delta _ tol δ hne hvar hδ0 (le_of_lt hμ) hδ
+    apply List.mem_filter.mpr
+    constructor
+    · have hlen : (margVec n l b).length = n := by unfold margVec; simp
+      rw [List.getD_eq_getElem?_getD, List.getElem?_eq_getElem (by rw [hlen]; exact hj)]
+      exact List.getElem_mem _
+    · simpa using hj0
+  exact model_final_step_bound n l hl hd hnn b hbl hb μ δ hμ hδ0 hδ1 hclose k hk hk0
+
 end Cooler.C10
